@@ -97,11 +97,21 @@ fn check_extract(c: &Extract) -> CaseResult {
     let pr = r9::params();
     let n = &pr.n;
     let id = expand_bytes(c.id_seed, c.id_len);
-    let hid = match c.hid % 3 {
+    let hid = match (c.hid & 0x7f) % 3 {
         0 => 3u8,
         x => x,
     };
-    let k = if c.craft_fail { (n - r9::h1(&id, hid)) % n } else { from_be(&c.k) % (n - 1u32) + 1u32 };
+    // bit 7 of `hid`: the stored k is a target v for (H1 + k)^-1, i.e. k := v^-1 - H1 mod N (the inverse the extraction computes is then v: short, sparse ...)
+    let k = if c.craft_fail {
+        (n - r9::h1(&id, hid)) % n
+    } else if c.hid & 0x80 != 0 {
+        match crate::refimpl::field::mod_inv(&(from_be(&c.k) % n), n) {
+            Some(vi) => (vi + n - r9::h1(&id, hid)) % n,
+            None => return pass(false, "inverse-target-not-invertible"),
+        }
+    } else {
+        from_be(&c.k) % (n - 1u32) + 1u32
+    };
     if k.is_zero() {
         return pass(false, "crafted-k=0-skipped");
     }
@@ -277,6 +287,17 @@ pub fn run(ctx: &Ctx) {
     });
 
     let seed = ctx.seed;
+    ctx.listed("extraction_crafted_inverse", "master keys crafted so that the inverse (H1 + k)^-1 the extraction computes is a chosen value v: 1, 2, 3, 65537, 2^64, 2^128, 2^128+12345, 2^192-1, 2^192, N-1, N-2 and boundary-limb values (short or sparse inverses), three key kinds", move || {
+        let n = &r9::params().n;
+        let mut vs: Vec<BigUint> = vec![BigUint::one(), BigUint::from(2u32), BigUint::from(3u32), BigUint::from(65537u32), BigUint::one() << 64, BigUint::one() << 128, (BigUint::one() << 128) + 12345u32, (BigUint::one() << 192) - 1u32, BigUint::one() << 192, n - 1u32, n - 2u32];
+        vs.extend(gen::boundary_limb_values(n).into_iter().filter(|x| x.bits() > 1).step_by(11));
+        let mut v = Vec::new();
+        for (i, t) in vs.iter().enumerate() {
+            v.push(Extract { hid: 0x80 | (1 + (i % 3) as u8), k: gen::hex32(t), craft_fail: false, id_len: 1 + i % 17, id_seed: seed ^ (0x2e61 + i as u64) });
+        }
+        v
+    }, check_extract);
+
     let zl_step = ctx.tier.pick(5usize, 1usize);
     ctx.listed("extraction_zero_limb_master_keys", "master keys with an all-zero 64-bit limb (also the least significant one: multiples of 2^64) below a non-zero limb, three key kinds (every 5th pattern in the quick tier)", move || {
         let n = &r9::params().n;
